@@ -5,7 +5,7 @@
                 over F_p2:                 inf | x0:x1,y0:y1
                 Edwards:                   x,y            (identity is 0,1)
    commands     PARAMS c | GEN c | ADD c P Q | SUB c P Q | DBL c P | NEG c P | EQ c P Q | ISID c P | ORDN c P
-                ONC c x,y | MUL c k lebytes P | MSM c k;lebytes;P ... | MSMN (naive sum only) | EDMONT x,y
+                ONC c x,y | MUL c k lebytes P | MSM c k;lebytes;P ... | MSMN (naive sum only) | MSMC (bucket algorithm only) | EDMONT x,y
                 F field op x [y]      field = <curve>.p | <curve>.n | g2.p2 *)
 open Model
 open Helpers
@@ -46,6 +46,7 @@ type grp = {
   mul : Big_int_Z.big_int -> Big_int_Z.big_int list -> string -> string;   (* naive, window *)
   msm : (Big_int_Z.big_int * Big_int_Z.big_int list * string) list -> string; (* naive, code *)
   msmn : (Big_int_Z.big_int * Big_int_Z.big_int list * string) list -> string; (* naive only *)
+  msmc : (Big_int_Z.big_int * Big_int_Z.big_int list * string) list -> string; (* bucket-algorithm model only *)
   ordn : string -> string;                                                 (* n*P = identity ? *)
 }
 
@@ -65,6 +66,10 @@ let mk parse show ~params ~gen ~add ~sub ~dbl ~neg ~eq ~isid ~onc ~mul ~smw ~msm
     and ps = List.map (fun (_, _, p) -> parse p) l in
     show (msm ks ps) ^ " " ^ (match msmcode ps bs with None -> "PANIC" | Some r -> show r));
   ordn = (fun p -> b2s (isid (mul n (parse p))));
+  msmc = (fun l ->
+    let bs = List.map (fun (_, b, _) -> b) l
+    and ps = List.map (fun (_, _, p) -> parse p) l in
+    (match msmcode ps bs with None -> "PANIC" | Some r -> show r));
   msmn = (fun l ->
     let ks = List.map (fun (k, _, _) -> k) l
     and ps = List.map (fun (_, _, p) -> parse p) l in
@@ -178,6 +183,7 @@ let () =
         | ["MUL"; c; k; b; p] -> (grp c).mul (zh k) (bytes_of_hex b) p
         | "MSM" :: c :: terms -> (grp c).msm (List.map parse_term terms)
         | "MSMN" :: c :: terms -> (grp c).msmn (List.map parse_term terms)
+        | "MSMC" :: c :: terms -> (grp c).msmc (List.map parse_term terms)
         | ["EDMONT"; p] -> show_opt show_fp (m_of_ed curve25519_params (parse_pair p))
         | ["MONTED"; p] -> show_pair (m_to_ed curve25519_params (parse_opt parse_fp p))
         | "F" :: f :: op :: args -> field_op f op args
